@@ -243,6 +243,11 @@ func Run(sc *Scenario) *History {
 		sort.SliceStable(h.Ops, func(a, b int) bool { return h.Ops[a].StartNs < h.Ops[b].StartNs })
 	}
 
+	if !rt.Stopped() && cfg.SinkCallback != nil {
+		// the notification (and with it the SMF's call-back request) may follow the recharge's
+		// answer: let both complete before the system is looked at
+		time.Sleep(25 * time.Second)
+	}
 	if !rt.Stopped() {
 		if cfg.SettleNs > 0 {
 			time.Sleep(time.Second)
